@@ -352,13 +352,167 @@ namespace cs
         }
     } // namespace
 
+    namespace
+    {
+        // tracked_block_allocator: a block allocator adapter with a tracker of its own. Every block that passes it - the
+        // first one in the constructor of the stack and the last one in its destructor included - is one growth /
+        // shrink event with the block's address and size, at the tracker inside the object that owns the blocks now.
+        using TBA    = fm::tracked_block_allocator<DTracker, fm::growing_block_allocator<LeafA>>;
+        using TStack = fm::memory_stack<TBA>;
+
+        void run_tba(const Plan& plan, Env& env, RunResult& res, RunHash& hash)
+        {
+            DeepLog                 log;
+            std::unique_ptr<TStack> objs[2];
+            std::unique_ptr<TStack::marker> bottom[2]; // (markers have no default constructor)
+            std::size_t             leaf_pos = 0, ev_pos = 0;
+            std::uint64_t           cases    = 0;
+            auto                    block_size = std::size_t(plan.num("block_size", 512));
+            int                     step       = -1;
+            // who: the tracker that must have been called (nullptr: not judged)
+            auto settle = [&](const char* what, const void* who)
+            {
+                std::vector<const Call*> blocks;
+                for (; leaf_pos < env.log.calls.size(); ++leaf_pos)
+                {
+                    auto& c = env.log.calls[leaf_pos];
+                    if (c.ok || !c.is_alloc())
+                        blocks.push_back(&c);
+                }
+                auto n = log.ev.size() - ev_pos;
+                if (n != blocks.size())
+                    violate("C09,C12", "tracker_events", "%s: %zu block request(s)/release(s) reached the wrapped block "
+                                                         "allocator's upstream, the tracker saw %zu event(s)",
+                            what, blocks.size(), n);
+                for (std::size_t i = 0; i < n; ++i)
+                {
+                    auto& e = log.ev[ev_pos + i];
+                    if ((e.op == 'g') != blocks[i]->is_alloc() || (e.op != 'g' && e.op != 's'))
+                        violate("C09,C12", "tracker_events", "%s: event '%c' does not match the upstream call", what,
+                                e.op);
+                    if (e.ptr != blocks[i]->ptr || e.size != blocks[i]->count * blocks[i]->size)
+                        violate("C09,C12", "tracker_events", "%s: event reports block (%p, %zu), the upstream call was "
+                                                             "about (%p, %zu)",
+                                what, e.ptr, e.size, blocks[i]->ptr, blocks[i]->count * blocks[i]->size);
+                    if (who && e.tracker != who)
+                        violate("C09,C12", "tracker_of_wrong_object", "%s: event '%c' arrived at a tracker object "
+                                                                      "that is not the one inside the block allocator "
+                                                                      "of the stack that owns the memory now",
+                                what, e.op);
+                }
+                ev_pos = log.ev.size();
+                ++cases;
+                if (!env.log.problem.empty())
+                    violate("C09,C12", "release_mismatch", "%s: %s", what, env.log.problem.c_str());
+            };
+            auto tracker_of = [](TStack& s) -> const void*
+            { return static_cast<const void*>(&s.get_allocator().get_tracker()); };
+            auto make = [&](int k)
+            {
+                objs[k].reset(new TStack(block_size, DTracker{&log}, LeafA(&env.leaf[k])));
+                settle("construction of the stack (first block)", tracker_of(*objs[k]));
+                bottom[k].reset(new TStack::marker(objs[k]->top()));
+            };
+            try
+            {
+                env.log.begin_op(0);
+                make(0);
+                for (std::size_t oi = 0; oi < plan.ops.size(); ++oi)
+                {
+                    step          = int(oi);
+                    const auto& o = plan.ops[oi];
+                    int         k = int(o.arg(0)) & 1;
+                    env.log.begin_op(0);
+                    if (o.kind == "mk" && !objs[k])
+                        make(k);
+                    else if (o.kind == "al" && objs[k])
+                    {
+                        auto  size = 1 + std::size_t(o.arg(1)) % (block_size / 3);
+                        void* p    = objs[k]->allocate(size, 1);
+                        hash.add(SimHeap::get().off(p));
+                        settle("allocate", tracker_of(*objs[k]));
+                    }
+                    else if (o.kind == "fr" && objs[k])
+                    {
+                        objs[k]->unwind(*bottom[k]); // (the blocks above the first one go to the cache: no events)
+                        settle("unwind", tracker_of(*objs[k]));
+                    }
+                    else if (o.kind == "shrink" && objs[k])
+                    {
+                        objs[k]->unwind(*bottom[k]);
+                        objs[k]->shrink_to_fit();
+                        settle("unwind + shrink_to_fit", tracker_of(*objs[k]));
+                        stats().hit("reach.tracked_block_allocator_shrunk");
+                    }
+                    else if (o.kind == "mv" && objs[k])
+                    {
+                        std::unique_ptr<TStack> n(new TStack(std::move(*objs[k])));
+                        settle("move construction", tracker_of(*n));
+                        objs[k].reset();
+                        settle("destruction of a moved-from stack", nullptr);
+                        objs[k] = std::move(n);
+                        stats().hit("reach.tracked_block_allocator_moved");
+                    }
+                    else if (o.kind == "mva" && objs[0] && objs[1])
+                    {
+                        *objs[k] = std::move(*objs[1 - k]);
+                        settle("move assignment", nullptr); // (count and parameters; which tracker hears about the
+                                                            //  target's old blocks is not specified)
+                        bottom[k].reset(new TStack::marker(*bottom[1 - k]));
+                        objs[1 - k].reset();
+                        settle("destruction of a moved-from stack", nullptr);
+                        stats().hit("reach.tracked_block_allocator_move_assigned");
+                    }
+                    else if (o.kind == "ds" && objs[k])
+                    {
+                        auto who = tracker_of(*objs[k]);
+                        objs[k].reset();
+                        settle("destruction of the stack (all its blocks)", who);
+                    }
+                }
+                step = int(plan.ops.size());
+                env.log.begin_op(0);
+                for (int k = 0; k < 2; ++k)
+                    if (objs[k])
+                    {
+                        auto who = tracker_of(*objs[k]);
+                        objs[k].reset();
+                        settle("destruction of the stack (all its blocks)", who);
+                    }
+                for (int l = 0; l < 2; ++l)
+                    if (!env.leaf[l].live.empty())
+                        violate("C09,C12,C05", "memory_not_returned", "leaf %d still has %zu block(s) after all stacks "
+                                                                      "are gone",
+                                l, env.leaf[l].live.size());
+            }
+            catch (Violation& v)
+            {
+                v.step       = step;
+                res.violated = true;
+                res.v        = v;
+                for (auto& o : objs)
+                    o.release(); // abandoned
+            }
+            catch (const std::bad_alloc&)
+            {
+                res.skip = "allocation failed in deep mode";
+                for (auto& o : objs)
+                    o.release();
+            }
+            stats().hit("reach.tracked_block_allocator_cases", cases);
+            res.nontrivial = cases >= 3;
+        }
+    } // namespace
+
     void run_deep(const Plan& plan, RunResult& res, RunHash& hash)
     {
         static Env env;
         env.reset();
         auto& heap = SimHeap::get();
         heap.begin_op(0);
-        if (plan.num("variant", 0) % 2 == 0)
+        if (plan.num("variant", 0) % 3 == 2)
+            run_tba(plan, env, res, hash);
+        else if (plan.num("variant", 0) % 2 == 0)
             run<DPool, true>(plan, env, res, hash);
         else
             run<DStack, false>(plan, env, res, hash);
